@@ -32,6 +32,29 @@ func NewRetryHandler(discoveryService ports.DiscoveryService, logger logger.Styl
 	}
 }
 
+// responseTracker remembers whether anything has been sent to the client. Once an
+// attempt has written the status line or any body byte, the response belongs to that
+// attempt and the request must not be re-dispatched to another endpoint.
+type responseTracker struct {
+	http.ResponseWriter
+	started bool
+}
+
+func (t *responseTracker) WriteHeader(statusCode int) {
+	t.started = true
+	t.ResponseWriter.WriteHeader(statusCode)
+}
+
+func (t *responseTracker) Write(p []byte) (int, error) {
+	t.started = true
+	return t.ResponseWriter.Write(p)
+}
+
+// Unwrap lets http.ResponseController reach Flush and friends on the wrapped writer.
+func (t *responseTracker) Unwrap() http.ResponseWriter {
+	return t.ResponseWriter
+}
+
 // ProxyFunc defines the signature for endpoint proxy implementations
 type ProxyFunc func(ctx context.Context, w http.ResponseWriter, r *http.Request, endpoint *domain.Endpoint, stats *ports.RequestStats) error
 
@@ -62,6 +85,7 @@ func (h *RetryHandler) ExecuteWithRetry(
 	var lastErr error
 	maxRetries := len(endpoints)
 	attemptCount := 0
+	tracked := &responseTracker{ResponseWriter: w}
 
 	for attemptCount < maxRetries && len(availableEndpoints) > 0 {
 		if err := h.checkContextCancellation(ctx); err != nil {
@@ -76,7 +100,7 @@ func (h *RetryHandler) ExecuteWithRetry(
 		}
 
 		attemptCount++
-		lastErr = h.executeProxyAttempt(ctx, w, r, endpoint, selector, stats, proxyFunc)
+		lastErr = h.executeProxyAttempt(ctx, tracked, r, endpoint, selector, stats, proxyFunc)
 
 		if lastErr == nil {
 			return nil
@@ -84,6 +108,14 @@ func (h *RetryHandler) ExecuteWithRetry(
 
 		if !IsConnectionError(lastErr) {
 			// Non-connection error warrants immediate failure
+			return lastErr
+		}
+
+		if tracked.started {
+			// Part of this attempt's response has already reached the client: another
+			// backend's response must never be appended to it. Take the endpoint out of
+			// rotation as for any connection failure, but do not re-dispatch.
+			h.markEndpointUnhealthy(ctx, endpoint)
 			return lastErr
 		}
 
